@@ -40,6 +40,8 @@ use std::sync::{Arc, Mutex};
 
 const PROP: &str = "C12";
 const ALPHA: [&str; 12] = ["/", ".", "~", "$", "{", "}", ":", "a", "é", "€", "😀", " "];
+/// second sweep of the one-argument helpers: separators, dots and two names, to a greater length
+const SHAPE_ALPHA: [&str; 4] = ["/", ".", "a", "é"];
 const HOME_SET: &str = "/a";
 const V_SET: &str = "home-set";
 const V_UNSET: &str = "home-unset";
@@ -80,18 +82,23 @@ fn odd_inputs() -> Vec<String> {
 struct Universe {
     n_enum: u64,
     odd: Arc<Vec<String>>,
+    alpha: &'static [&'static str],
 }
 
 impl Universe {
     fn new(lmax: u32, odd: &Arc<Vec<String>>) -> Universe {
-        Universe { n_enum: count_upto(ALPHA.len() as u64, lmax), odd: odd.clone() }
+        Universe { n_enum: count_upto(ALPHA.len() as u64, lmax), odd: odd.clone(), alpha: &ALPHA }
+    }
+    /// longer strings over the few symbols that shape a path (no odd inputs)
+    fn shapes(lmax: u32) -> Universe {
+        Universe { n_enum: count_upto(SHAPE_ALPHA.len() as u64, lmax), odd: Arc::new(vec![]), alpha: &SHAPE_ALPHA }
     }
     fn len(&self) -> u64 {
         self.n_enum + self.odd.len() as u64
     }
     fn get(&self, i: u64, out: &mut String) {
         if i < self.n_enum {
-            nth_string(&ALPHA, i, out);
+            nth_string(self.alpha, i, out);
         } else {
             out.clear();
             out.push_str(&self.odd[(i - self.n_enum) as usize]);
@@ -993,6 +1000,8 @@ struct Seg {
     /// enumerated strings longer than this are processed only when they contain '~' (the HOME-unset
     /// variant differs from the HOME-set one only on those); u32::MAX = no restriction
     tilde_above: u32,
+    /// strings come from SHAPE_ALPHA instead of ALPHA
+    shape: bool,
 }
 
 fn plan(variant: &str, tier: Tier) -> Vec<Seg> {
@@ -1003,25 +1012,29 @@ fn plan(variant: &str, tier: Tier) -> Vec<Seg> {
             Tier::Quick => (4, 4, 2, 4, 3),
             Tier::Thorough => (6, 5, 3, 6, 3),
         };
-        v.push(Seg { part: Part::Help1, state: 0, lmax: lh, tilde_above: all });
-        v.push(Seg { part: Part::Help2, state: 0, lmax: lhp, tilde_above: all });
+        v.push(Seg { part: Part::Help1, state: 0, lmax: lh, tilde_above: all, shape: false });
+        v.push(Seg { part: Part::Help1, state: 0, lmax: match tier {
+            Tier::Quick => 7,
+            Tier::Thorough => 9,
+        }, tilde_above: all, shape: true });
+        v.push(Seg { part: Part::Help2, state: 0, lmax: lhp, tilde_above: all, shape: false });
         for st in 0..3 {
-            v.push(Seg { part: Part::Memfs2, state: st, lmax: lp, tilde_above: all });
+            v.push(Seg { part: Part::Memfs2, state: st, lmax: lp, tilde_above: all, shape: false });
         }
-        v.push(Seg { part: Part::Memfs1, state: 1, lmax: l12, tilde_above: all });
-        v.push(Seg { part: Part::Memfs1, state: 2, lmax: l12, tilde_above: all });
-        v.push(Seg { part: Part::Memfs1, state: 0, lmax: l0, tilde_above: all });
+        v.push(Seg { part: Part::Memfs1, state: 1, lmax: l12, tilde_above: all, shape: false });
+        v.push(Seg { part: Part::Memfs1, state: 2, lmax: l12, tilde_above: all, shape: false });
+        v.push(Seg { part: Part::Memfs1, state: 0, lmax: l0, tilde_above: all, shape: false });
     } else {
         let (l, ta, lp) = match tier {
             Tier::Quick => (4, 3, 2),
             Tier::Thorough => (5, 4, 2),
         };
-        v.push(Seg { part: Part::Help1, state: 0, lmax: l, tilde_above: ta });
+        v.push(Seg { part: Part::Help1, state: 0, lmax: l, tilde_above: ta, shape: false });
         for st in 0..3 {
-            v.push(Seg { part: Part::Memfs2, state: st, lmax: lp, tilde_above: all });
+            v.push(Seg { part: Part::Memfs2, state: st, lmax: lp, tilde_above: all, shape: false });
         }
         for st in [1, 2, 0] {
-            v.push(Seg { part: Part::Memfs1, state: st, lmax: l, tilde_above: ta });
+            v.push(Seg { part: Part::Memfs1, state: st, lmax: l, tilde_above: ta, shape: false });
         }
     }
     v
@@ -1038,6 +1051,7 @@ fn seg_text(s: &Seg, pres: &[Pre]) -> String {
             if s.lmax as usize > LONG_NO_PARTNER { format!(" (strings longer than {}: without the two-path calls against fixed partners)", LONG_NO_PARTNER) } else { String::new() }
         ),
         Part::Memfs2 => format!("copy/move_p/symlink/copy_b x all pairs of strings len<={} (+ odd inputs paired with len<=1 and each other), pre-state {}", s.lmax, pres[s.state].name),
+        Part::Help1 if s.shape => format!("one-argument helpers x strings len<={} over the path-shape alphabet {:?}", s.lmax, SHAPE_ALPHA),
         Part::Help1 => format!("one-argument helpers x strings len<={}{} + odd inputs", s.lmax, t),
         Part::Help2 => format!("two-argument helpers x all pairs of (strings len<={} + odd inputs)", s.lmax),
     }
@@ -1094,7 +1108,7 @@ impl Run {
     fn new(variant: &'static str, tier: Tier, in_worker: bool) -> Run {
         let odd = Arc::new(odd_inputs());
         let plan = plan(variant, tier);
-        let universes = plan.iter().map(|s| Universe::new(s.lmax, &odd)).collect();
+        let universes = plan.iter().map(|s| if s.shape { Universe::shapes(s.lmax) } else { Universe::new(s.lmax, &odd) }).collect();
         Run {
             variant,
             in_worker,
@@ -1387,7 +1401,7 @@ fn case_id(si: usize, k: usize, i: u64, j: u64) -> u64 {
 fn decode_case(run: &Run, slot: usize, case: u64) -> (Seg, Vec<String>, usize, String) {
     if case == TRIAL_MARK {
         if let Some((part, state, args, k)) = run.trial[slot].lock().unwrap_or_else(|e| e.into_inner()).clone() {
-            let seg = Seg { part, state, lmax: 0, tilde_above: u32::MAX };
+            let seg = Seg { part, state, lmax: 0, tilde_above: u32::MAX, shape: false };
             let name = match part {
                 Part::Memfs1 | Part::Memfs2 => gen_call(part, &args, k).map(|c| c.name().to_string()).unwrap_or("?".into()),
                 _ => helper_name(part, k),
